@@ -97,14 +97,44 @@ def extra(res, findings, tier, rng, harness, driver):
     (structural hashes refined over references: distinct nodes, sharing and cycles are told apart)"""
     from . import refstage, catalog
     texts = []
+    def uniqued_cycle(desc):
+        """a cycle through NON-distinct nodes only: LLVM uniques such nodes while their operands are still forward references, so what it builds depends on
+        the ORDER of the definitions (`!2 = !{!11}` before / after `!11 = !{!11}` gives one node or two) - llir's canonical order (by ID) is then a
+        different module for LLVM; not a graph LLVM's own printer ever emits, excluded from the comparison"""
+        adj, dist = {}, set()
+        for s_ in desc.split():
+            p = s_.split(":", 1)
+            if p[0].startswith("N"):
+                continue
+            i = p[0].rstrip("d")
+            if p[0].endswith("d"):
+                dist.add(i)
+            adj[i] = [r for r in (p[1].split(",") if len(p) > 1 and p[1] else []) if r.isdigit()]
+        color = {}
+        def dfs(u):
+            color[u] = 1
+            for v in adj.get(u, []):
+                if v in dist or v not in adj:
+                    continue
+                if color.get(v) == 1 or (color.get(v) is None and dfs(v)):
+                    return True
+            color[u] = 2
+            return False
+        return any(color.get(u) is None and u not in dist and dfs(u) for u in adj)
+    skipped = 0
     for i in range(150 if tier == "quick" else 5000):
         g = gen_graph(rng)
+        if uniqued_cycle(g):
+            skipped += 1
+            continue
         t = graph_text(g)
         # everything must be reachable for LLVM to keep it: one named metadata node listing every definition
         ids = [l.split(" ")[0] for l in t.split("\n") if l and l[1].isdigit()]
         texts.append(("graph-%d" % i, t + "!keep = !{%s}\n" % ", ".join(ids)))
     texts += [(n, t) for n, t, _ in catalog.DI if "splitDebugInlining" not in n]
-    return refstage.run(res, findings, harness, "C17", texts)
+    out = refstage.run(res, findings, harness, "C17", texts)
+    out["llvm_reference"]["graphs_with_uniqued_cycles_excluded"] = skipped
+    return out
 
 
 def nontrivial(ln, model_out):
